@@ -172,14 +172,16 @@ def worker(k, queue, results):
                     if rc == 1:
                         break           # caught: no need to run the others
                 r["caught_by"] = [p for p, x in r["checks"].items() if x["exit"] == 1]
+                r["tool_errors"] = [p for p, x in r["checks"].items() if x["exit"] not in (0, 1)]
                 # clean this tree's caches (they are per tree hash and never reused)
                 rc, h = sh("python3 -c 'import sys; sys.path.insert(0, \"lib\"); import pipeline; print(pipeline.repo_hash())'", cwd=VERIF, env=dict(os.environ, VERIF_REPO=wt))
                 h = h.strip().split("\n")[-1]
                 if re.fullmatch(r"[0-9a-f]{20}", h):
                     shutil.rmtree(os.path.join(VERIF, "work", "tree-" + h), ignore_errors=True)
+            r["_k"] = k
             results.append(r)
             with open(os.path.join(OUT, "results-%d.json" % k), "w") as f:
-                json.dump([x for x in results if x.get("_k", k) == k], f, indent=1)
+                json.dump([x for x in list(results) if x.get("_k") == k], f, indent=1)
             print("[%d] %s %s:%d %s | compiled=%s suite_pass=%s caught=%s (%.0fs)" % (
                 k, c["id"], c["file"], c["line"], c["op"], built, ok, r.get("caught_by"), time.time() - t0), flush=True)
     finally:
@@ -191,6 +193,7 @@ def run(nworkers):
     done = set()
     rp = os.path.join(OUT, "report.json")
     old = json.load(open(rp)) if os.path.exists(rp) else []
+    old = [r for r in old if not r.get("tool_errors")]          # inconclusive runs are repeated
     done = {r["id"] for r in old}
     queue = [c for c in cands if c["id"] not in done][::-1]
     results = []
@@ -203,7 +206,7 @@ def run(nworkers):
     with open(rp, "w") as f:
         json.dump(allr, f, indent=1)
     surv = [r for r in allr if r["suite_pass"]]
-    missed = [r for r in surv if not r.get("caught_by")]
+    missed = [r for r in surv if not r.get("caught_by") and not r.get("tool_errors")]
     print("candidates %d, compiled %d, suite-surviving %d, caught %d, not reported %d" % (
         len(allr), sum(r["compiled"] for r in allr), len(surv), len(surv) - len(missed), len(missed)))
     for r in missed:
